@@ -257,4 +257,27 @@ theorem C13_admitted_registered_seq (caps : Caps) (s : Server) (hr : ReachSeq ca
 
 end Mochi.Broker
 
+/-! ### non-vacuity (`c13State`: `c1` is connected on connection 2 as object 2; the hook denies `b`) -/
+namespace Mochi.Broker
+open Mochi.Topics
+
+/-- the take-over of `c1` on connection 3 is admitted: object 3 is registered under `c1`, open, on connection 3 -/
+example : assocGet (step c13State (.connect 3 { ver := 5, id := [99, 49] })).1.clients [99, 49] = some 3 ∧
+    (getObj (step c13State (.connect 3 { ver := 5, id := [99, 49] })).1 3).isOpen = true ∧
+    (getObj (step c13State (.connect 3 { ver := 5, id := [99, 49] })).1 3).conn = 3 := by
+  have h := (C13_admitted_registered_seq {} c13State c13State_reach 3 { ver := 5, id := [99, 49] } (by decide)).1
+    (by decide)
+  exact ⟨h.2.1, h.2.2.2.2.1, h.2.2.2.2.2.1⟩
+
+/-- the refused CONNECT of `b`: nothing is registered for object 3, which is closed -/
+example : (∀ id, assocGet (step c13State (.connect 3 { ver := 5, id := [98] })).1.clients id ≠ some 3) ∧
+    (getObj (step c13State (.connect 3 { ver := 5, id := [98] })).1 3).isOpen = false := by
+  have h := (C13_admitted_registered_seq {} c13State c13State_reach 3 { ver := 5, id := [98] } (by decide)).2 0x86
+    (by decide)
+  exact ⟨h.2.1, h.2.2.2.1⟩
+
+example : c13State.objs.length = 3 ∧ assocGet c13State.clients [99, 49] = some 2 := by decide
+
+end Mochi.Broker
+
 #print axioms Mochi.Broker.C13_admitted_registered_seq
